@@ -1,15 +1,7 @@
 (* Delimiter-separated text: split / join lemmas shared by the backslash
    formats (master-server filters, Quake, GameSpy 1). *)
-From GD Require Import Base.Prelude.
+From GD Require Import Base.Prelude Model.StrOps.
 From Coq Require Import ZifyBool ZifyNat ZifyN.
-
-(* split on a delimiter; [cur] is the current field, reversed *)
-Fixpoint split_on (d : N) (l : bytes) (cur : bytes) : list bytes :=
-  match l with
-  | [] => [rev cur]
-  | x :: r => if x =? d then rev cur :: split_on d r [] else split_on d r (x :: cur)
-  end.
-Definition split (d : N) (l : bytes) : list bytes := split_on d l [].
 
 Lemma split_on_field : forall d s cur, ~ In d s -> split_on d s cur = [rev cur ++ s].
 Proof.
@@ -28,14 +20,6 @@ Proof.
 Qed.
 
 (* ---- decimal rendering and reading are mutually inverse ---- *)
-Definition dec_step (acc : option N) (c : N) : option N :=
-  match acc with
-  | Some a => if (48 <=? c) && (c <=? 57) then Some (a * 10 + (c - 48)) else None
-  | None => None
-  end.
-Definition dec_read (s : bytes) : option N :=
-  match s with [] => None | _ => fold_left dec_step s (Some 0) end.
-
 Lemma dec_digits_read : forall fuel n acc, n < 2 ^ N.of_nat fuel ->
   fold_left dec_step (dec_digits fuel n acc) (Some 0) = fold_left dec_step acc (Some n).
 Proof.
